@@ -613,7 +613,8 @@ func (g *gWorld) pickTargetIdx(rt *rapid.T, allowNone bool) int {
 // genGenericOp draws the next op from the current state of the lock-step worlds' bookkeeping.
 func (g *gWorld) genGenericOp(rt *rapid.T, focus int) gOp {
 	kinds := []string{"mapNew", "mapNew", "mapNewWith", "mapNewBatch", "mapGet", "mapAdd", "mapAssign", "mapRemove",
-		"mapAddBatch", "mapRemoveBatch", "mapRemoveEntities", "rm", "map1", "map1", "exchange", "exchange", "filter", "filter", "filter", "ill"}
+		"mapAddBatch", "mapRemoveBatch", "mapRemoveEntities", "rm", "map1", "map1", "exchange", "exchange", "filter", "filter", "filter", "ill",
+		"mapAddT", "mapRemoveT", "mapRemoveBatchT", "mapAddBatchT"}
 	if g.illWeight > 0 {
 		for i := 0; i < g.illWeight; i++ {
 			kinds = append(kinds, "ill")
@@ -651,6 +652,20 @@ func (g *gWorld) genGenericOp(rt *rapid.T, focus int) gOp {
 			op.K, op.T = "mapNew", -2
 		} else if ad.HasRel && op.K == "mapAdd" {
 			op.T = g.pickTargetIdx(rt, true)
+		}
+	case "mapAddT", "mapRemoveT", "mapRemoveBatchT", "mapAddBatchT":
+		if ad.HasRel || ad.N == 0 || ad.NewMap == nil {
+			op.K, op.T = "mapNew", -2
+			break
+		}
+		op.T = g.pickTargetIdx(rt, false)
+		if op.K == "mapAddT" {
+			op.E = g.pickEnt(rt, func(e *gEnt) bool { return e.comps[tGR0] && g.entHasNone(e, ad.Types) })
+		} else if op.K == "mapRemoveT" {
+			op.E = g.pickEnt(rt, func(e *gEnt) bool { return e.comps[tGR0] && g.entHasAll(e, ad.Types) })
+		}
+		if op.E < 0 {
+			op.E = 0 // (apply creates a suitable entity when the drawn one is not)
 		}
 	case "mapRemove":
 		op.E = g.pickEnt(rt, func(e *gEnt) bool { return g.entHasAll(e, ad.Types) })
@@ -859,7 +874,7 @@ func TestC18(t *testing.T) {
 	runGenericProp(t, &genericProp{ID: "C18", Test: "TestC18",
 		// an ID-based call that accepts illegal arguments is C10's business; the case ends there
 		Owns: func(msg string) bool { return !strings.Contains(msg, "HARNESS: the ID-based equivalent") },
-		Rule: fmt.Sprintf("generated code instantiates MapN/FilterN/QueryN for every arity 0-12 in natural order, reversed order and with the relation type at a varying position (%d instantiations over 17 static types), plus Map, Exchange; generated op histories drive a world Wg through the generic calls and a lock-step world Wc through the ID-based calls the documentation names as equivalent (creation with/without values and targets, batch creation, Add/Assign/Remove, batch variants, RemoveEntities(exclusive), Map.Set/SetRelation/SetRelationBatch(Q), Exchange.*); after every op both worlds are compared completely (alive, masks, every component's bytes, relation targets, returned handles and counts). MapN.Get/GetUnchecked and QueryN.Get must be pointer-identical, position by position, to World.Get of the declared type (nil <=> absent). Filter scripts call Optional/With/Without/Exclusive/WithRelation(target?) before and BETWEEN queries, Register/Unregister, queries with a call-time target, and two queries open at once with different targets; 15 classes of illegal calls (removed entities and targets, present/absent components, counts <= 0, relation calls on non-relation or missing components) must panic exactly like their ID-based equivalents and change nothing; every query's entity set, Count and Relation() must equal those of the core MaskFilter/RelationFilter built from the builder state at query-build time; non-trivial = a filter queried again after its builder was modified or used, two open queries, an optional component absent on a visited entity, or a Get on arity >= 2; every adapter is exercised in every run (round-robin)", len(gAdapters))})
+		Rule: fmt.Sprintf("generated code instantiates MapN/FilterN/QueryN for every arity 0-12 in natural order, reversed order and with the relation type at a varying position (%d instantiations over 17 static types), plus Map, Exchange; generated op histories drive a world Wg through the generic calls and a lock-step world Wc through the ID-based calls the documentation names as equivalent (creation with/without values and targets, batch creation, Add/Assign/Remove, batch variants, RemoveEntities(exclusive), Map.Set/SetRelation/SetRelationBatch(Q), Exchange.*; MapN built with a relation component outside its own components: Add/Remove/RemoveBatch(Q) with a target); after every op both worlds are compared completely (alive, masks, every component's bytes, relation targets, returned handles and counts). MapN.Get/GetUnchecked and QueryN.Get must be pointer-identical, position by position, to World.Get of the declared type (nil <=> absent). Filter scripts call Optional/With/Without/Exclusive/WithRelation(target?) before and BETWEEN queries, Register/Unregister, queries with a call-time target, and two queries open at once with different targets; 15 classes of illegal calls (removed entities and targets, present/absent components, counts <= 0, relation calls on non-relation or missing components) must panic exactly like their ID-based equivalents and change nothing; every query's entity set, Count and Relation() must equal those of the core MaskFilter/RelationFilter built from the builder state at query-build time; non-trivial = a filter queried again after its builder was modified or used, two open queries, an optional component absent on a visited entity, or a Get on arity >= 2; every adapter is exercised in every run (round-robin)", len(gAdapters))})
 }
 
 // scribbleComps overwrites a component list after it was passed to a builder call.
